@@ -20,6 +20,10 @@ mod indexed;
 mod types;
 pub mod value;
 
+#[cfg(feature = "__verif")]
+#[doc(hidden)]
+pub mod verif_hooks;
+
 pub(crate) const TYPENAME_META_FIELD: &str = "__typename";
 
 static TYPENAME_META_FIELD_ARC: OnceLock<Arc<str>> = OnceLock::new();
